@@ -5,8 +5,8 @@ connctx have the same structure).  Two goroutines — the caller and the watcher
 granularity of the yield points vrewrite inserts (the watcher's `select` and `<-done`, the
 caller's `wg.Wait()`), plus the point where the caller sits inside the wrapped connection's
 blocking call.  The wrapped connection is abstract: it has a deadline (zero or "very old") and a
-number of bytes it can transfer; its blocking call returns when it can transfer something or when
-its deadline is in the past (then 0 bytes and a timeout error).
+number of bytes it can transfer; its blocking call returns when it can transfer something (a stream write: when
+everything is written) or when its deadline is in the past (then the bytes transferred so far and a timeout error).
 -/
 namespace TV.Ctx
 
@@ -43,11 +43,12 @@ structure Op where
   callErr : Err           -- error of the wrapped call
   result : Option (Nat × Err)
   transferred : Nat       -- bytes that actually left the wrapped connection during this operation
+  stream : Bool := false  -- a stream write: the wrapped call returns only when all `want` bytes are written (or on its deadline)
 deriving Repr, DecidableEq
 
-def Op.new (want avail : Nat) (cancelled : Bool) : Op :=
+def Op.new (want avail : Nat) (cancelled : Bool) (stream : Bool := false) : Op :=
   { main := .start, watcher := .none, cancelled, doneClosed := false, deadlineOld := false, avail, want,
-    n := 0, callErr := .nil, result := none, transferred := 0 }
+    n := 0, callErr := .nil, result := none, transferred := 0, stream }
 
 /-- the watcher's ctx branch: `SetDeadline(veryOld)`, then it stops before `<-done` -/
 def Op.ctxBranch (o : Op) : Op := { o with deadlineOld := true, watcher := .atRecv }
@@ -94,11 +95,15 @@ def step (o : Op) : Step → Op
     match o.main with
     | .start => { o with main := .inCall, watcher := .start }      -- spawn the watcher, enter the wrapped call
     | .inCall =>
-      -- the wrapped call looks at its state: a past deadline fails it, else it transfers what it can
-      if o.deadlineOld then ({ o with n := 0, callErr := .timeout, main := .atWait }).closeDone
+      -- the wrapped call looks at its state: a past deadline fails it (reporting what it has transferred so
+      -- far), else it transfers what it can; a read or a packet write then returns, a stream write only
+      -- once everything is written
+      if o.deadlineOld then ({ o with callErr := .timeout, main := .atWait }).closeDone
       else if o.avail > 0 then
-        let k := min o.avail o.want
-        ({ o with n := k, callErr := .nil, avail := o.avail - k, transferred := o.transferred + k, main := .atWait }).closeDone
+        let k := min o.avail (o.want - o.n)
+        let o1 := { o with n := o.n + k, avail := o.avail - k, transferred := o.transferred + k }
+        if o.stream ∧ o1.n < o.want then o1
+        else ({ o1 with callErr := .nil, main := .atWait }).closeDone
       else o                                                         -- still blocked
     | .atWait => if o.watcher = .exited then o.finish else { o with main := .parkedWait }
     | _ => o
